@@ -21,6 +21,7 @@ import (
 
 	"github.com/lidofinance/dc4bc/airgapped"
 	"github.com/lidofinance/dc4bc/client/types"
+	"github.com/lidofinance/dc4bc/dkg"
 	"github.com/lidofinance/dc4bc/fsm/types/requests"
 	"github.com/lidofinance/dc4bc/storage"
 
@@ -581,6 +582,9 @@ type c04Rounds struct {
 	T1   int   `json:"t1"`
 	T2   int   `json:"t2"`
 	Perm []int `json:"perm"` // participant order of the second round (a permutation or a sub-list of the first)
+	// Twin: the second round's identifier is the first one's with white space around it or in another letter case (round
+	// identifiers are free text on the board; only a node's own API derives them from a hash)
+	Twin string `json:"twin,omitempty"`
 }
 
 func c04GenRounds(rt *rapid.T) c04Rounds {
@@ -590,6 +594,7 @@ func c04GenRounds(rt *rapid.T) c04Rounds {
 	k := rapid.IntRange(2, n).Draw(rt, "k")
 	r.Perm = perm[:k]
 	r.T2 = rapid.IntRange(2, k).Draw(rt, "t2")
+	r.Twin = rapid.SampledFrom([]string{"", "", "", "space-after", "space-before", "tab-after", "upper-case", "newline-after"}).Draw(rt, "twin")
 	return r
 }
 
@@ -643,7 +648,14 @@ func c04RunRounds(t *testing.T, st *vstat.Stats, p c04Rounds) (v *viol) {
 			return
 		}
 		time.Sleep(time.Hour)
-		r2, err := w.StartDKG(p.Perm[0], p.T2, p.Perm)
+		var r2 string
+		if p.Twin == "" {
+			r2, err = w.StartDKG(p.Perm[0], p.T2, p.Perm)
+		} else {
+			r2 = map[string]string{"space-after": r1 + " ", "space-before": " " + r1, "tab-after": r1 + "\t", "upper-case": strings.ToUpper(r1), "newline-after": r1 + "\n"}[p.Twin]
+			body, _ := json.Marshal(w.ProposalRequest(p.T2, p.Perm))
+			w.PostSigned(p.Perm[0], r2, "event_sig_proposal_init", body, "")
+		}
 		for r := 0; err == nil && r < 80; r++ {
 			progress := w.PollAll()
 			for _, i := range p.Perm { // only the invited participants' operators act
@@ -667,16 +679,50 @@ func c04RunRounds(t *testing.T, st *vstat.Stats, p c04Rounds) (v *viol) {
 			return
 		}
 		k1, err := collectRound(w, r1, seq(p.N))
+		if err == nil {
+			var k2e error
+			_, k2e = collectRound(w, r2, p.Perm)
+			err = k2e
+		}
 		if err != nil {
+			if strings.Contains(err.Error(), "no keyring") {
+				v = violf("round-keyring-lost", "n=%d, rounds %q (t=%d) and %q (t=%d, participants %v) both finished on the same machines: %v", p.N, r1, p.T1, r2, p.T2, p.Perm, err)
+				return
+			}
 			v = violf("harness", "%v", err)
 			return
 		}
-		k2, err := collectRound(w, r2, p.Perm)
-		if err != nil {
-			v = violf("harness", "%v", err)
-			return
+		k2, _ := collectRound(w, r2, p.Perm)
+		desc := fmt.Sprintf("n=%d: round %q (t=%d, all participants) and round %q (t=%d, participants %v)", p.N, clip(r1, 10), p.T1, clip(r2, 10)+r2[len(r2)-1:], p.T2, p.Perm)
+		// every machine holds, for each of the two rounds, the key material of THAT round: its polynomial is the one the
+		// nodes retained for the round, and its share lies on it
+		vs := bls12381.NewBLS12381Suite(nil)
+		for _, rc := range []struct {
+			round   string
+			members []int
+		}{{r1, seq(p.N)}, {r2, p.Perm}} {
+			d, derr := w.Dump(rc.members[0], rc.round)
+			if derr != nil || d.Payload.DKGProposalPayload == nil {
+				v = violf("harness", "%s: no retained round %q on node %d: %v", desc, rc.round, rc.members[0], derr)
+				return
+			}
+			nk, perr := dkg.LoadPubPolyBLSKeyringFromBytes(vs, d.Payload.DKGProposalPayload.PubPolyBz)
+			if perr != nil {
+				v = violf("harness", "%s: retained polynomial of %q does not decode: %v", desc, rc.round, perr)
+				return
+			}
+			for _, i := range rc.members {
+				kr, kerr := w.Keyring(i, rc.round)
+				if kerr != nil || kr == nil {
+					v = violf("round-keyring-lost", "%s: after both rounds machine %d holds no keyring for round %q (%v)", desc, i, rc.round, kerr)
+					return
+				}
+				if !polyEq(polyBytes(kr.PubPoly), polyBytes(nk.PubPoly)) {
+					v = violf("keyring-of-another-round", "%s: what machine %d holds for round %q is not that round's polynomial (the nodes retained another one for it)", desc, i, rc.round)
+					return
+				}
+			}
 		}
-		desc := fmt.Sprintf("n=%d: round %s (t=%d, all participants) and round %s (t=%d, participants %v)", p.N, r1[:8], p.T1, r2[:8], p.T2, p.Perm)
 		// dealer polynomials first: they explain everything else
 		for name, c1 := range k1.Commits {
 			c2, ok := k2.Commits[name]
@@ -704,6 +750,9 @@ func c04RunRounds(t *testing.T, st *vstat.Stats, p c04Rounds) (v *viol) {
 				return
 			}
 		}
+		if p.Twin != "" {
+			st.Class("rounds-whose-identifiers-differ-by:" + p.Twin)
+		}
 		st.Class("rounds-unrelated")
 		st.NonTrivial(fmt.Sprintf("%d/%d/%d/%v", p.N, p.T1, p.T2, p.Perm))
 	})
@@ -726,7 +775,10 @@ func TestC04(t *testing.T) {
 		if v != nil && st.IsKnown(v.Key) {
 			// recorded finding: count it, keep a sample, continue the search
 			st.KnownHit(v.Key)
-			st.NonTrivial(fmt.Sprintf("known/%d/%d/%d/%v", p.N, p.T1, p.T2, p.Perm))
+			if p.Twin != "" {
+				st.Class("rounds-whose-identifiers-differ-by:" + p.Twin)
+			}
+			st.NonTrivial(fmt.Sprintf("known/%d/%d/%d/%v/%s", p.N, p.T1, p.T2, p.Perm, p.Twin))
 			st.SampleEvery(20, map[string]any{"rounds_case": fmt.Sprintf("n=%d t1=%d t2=%d second-round participants %v", p.N, p.T1, p.T2, p.Perm), "outcome": "known finding: " + v.What})
 			return nil
 		}
